@@ -72,13 +72,13 @@ def cut_literals(prog, k, site_bb):
     return uniq
 
 
-def total_under(prog, k, site_bb, assume):
+def total_under(prog, k, site_bb, assume, preds=()):
     """Is the per-block admission forced true when the named variable has the given constant?
     Returns (bool, explanation)."""
     d = cut_literals(prog, k, site_bb)
     if d is None:
         return False, 'path condition too large'
-    env = Env(prog, assume)
+    env = Env(prog, assume, preds)
     why = []
     for conj in d:
         ts = [env.truth(c) for c in conj]
@@ -87,3 +87,16 @@ def total_under(prog, k, site_bb, assume):
         bad = [show(c)[:200] for c, t in zip(conj, ts) if t != TRUE]
         why.append(bad)
     return False, 'the cut literal(s) %s stay feasible: the walk can stop before the tip' % why[:2]
+
+
+def tip_locals(prog, f):
+    """(local of the walk's tip hash label, local of its tip height label) in get_utxos_from_chain,
+    identified by their initial values (anchor hash / next_height), not by name."""
+    from sa.util import find_locals
+    NH = P.call('ic_btc_canister::utxo_set::UtxoSet::next_height', P.field('utxos', P.param('state')))
+    HASH0 = P.call('<ic_btc_canister::blocktree::CachedBlock as ic_btc_canister::blocktree::ChainBlock>::block_hash', P.call('ic_btc_canister::blocktree::BlockChain::first', P.param('chain')))
+    out = []
+    for init in (HASH0, NH):
+        ls = find_locals(prog, f, lambda x, l, init=init: init(x), lambda x, l, init=init: not init(x))
+        out.append(ls[0] if len(ls) == 1 else None)
+    return tuple(out)
